@@ -455,3 +455,341 @@ class C14(Base):
         s3 = lines + c14_packets(r.fork(4), toks, per)
         return [Stream("S1-parser-mutations", s1, fields={"pure": ["_"]}, oracle=c14_oracle),
                 Stream("S3-malformed-packets", s3, fields={"recv": ["ack", "src"]}, oracle=c14_oracle)]
+
+
+# ----------------------------------------------------------------------------------------------- C02
+
+def module_addrs():
+    import os
+    try:
+        f = _json.load(open(os.path.join(scen.VERIF, ".cache", "facts.json")))
+        import base64
+        return {k: base64.b64decode(v).hex() for k, v in f["Bytes"].items()}
+    except Exception:
+        return {}
+
+
+def c02_oracle(steps):
+    out = []
+    led = Ledger()
+    mods = module_addrs()
+    for s in steps:
+        pre = dict(led.orb)
+        led.apply(s)
+        if s.op not in RECV_OPS or s.impl.get("ack") != "ok":
+            continue
+        p = packet_of(s.line)
+        if not receiver_is_orbiter(p) or not p["payload"]:
+            continue
+        delta = parse_delta(s.impl.get("bal"))
+        sup = parse_sup(s.impl.get("sup"))
+        try:
+            A = parse_go_int(p["ftpd"]["amount"])
+        except Exception:
+            continue
+        dn = p["ftpd"]["denom"][len(p["src_port"] + "/" + p["src_chan"] + "/"):]
+        # (i) per denom: what accounts gained/lost in total equals the change of supply
+        per = {}
+        for (a, d), v in delta.items():
+            per[d] = per.get(d, 0) + v
+        for d in set(per) | set(sup):
+            if per.get(d, 0) != sup.get(d, 0):
+                out.append((s.i, "conservation: accounts of %s changed by %d in total but supply changed by %d" % (d, per.get(d, 0), sup.get(d, 0))))
+        # (ii) supply only shrinks, and only by the CCTP burn
+        route = (p["payload"].get("forwarding") or {}).get("protocol_id")
+        for d, v in sup.items():
+            if v > 0 or (v < 0 and route not in ("PROTOCOL_CCTP", 2)):
+                out.append((s.i, "supply: supply of %s changed by %d on route %s" % (d, v, route)))
+        # (iii) the escrow released exactly the packet's coin
+        esc = ("escrow:%s/%s" % (p["dst_port"], p["dst_chan"])).encode().hex()
+        if delta.get((esc, dn), 0) != -A:
+            out.append((s.i, "escrow: escrow released %d of %s, packet amount %d" % (-delta.get((esc, dn), 0), dn, A)))
+        # (iv) the orbiter keeps nothing of the delivered coin; what it held before goes to the dust collector
+        had = pre.get(dn, 0)
+        if delta.get((ORBHEX, dn), 0) != -had:
+            out.append((s.i, "orbiter: orbiter balance of %s changed by %d, pre-existing %d" % (dn, delta.get((ORBHEX, dn), 0), had)))
+        if delta.get((DUSTHEX, dn), 0) != had:
+            out.append((s.i, "dust: dust collector received %d of %s, pre-existing orbiter balance %d" % (delta.get((DUSTHEX, dn), 0), dn, had)))
+        # (v) nobody else: only fee recipients and the route's account
+        allowed = {esc, ORBHEX, DUSTHEX}
+        for act in p["payload"].get("pre_actions") or []:
+            try:
+                for fi in act["attributes"].get("fees_info") or []:
+                    a = decode_addr(fi.get("recipient", ""))
+                    if a:
+                        allowed.add(a.hex())
+            except Exception:
+                pass
+        attrs = (p["payload"].get("forwarding") or {}).get("attributes") or {}
+        if route in ("PROTOCOL_INTERNAL", 4):
+            a = decode_addr(attrs.get("recipient", ""))
+            if a:
+                allowed.add(a.hex())
+        if route in ("PROTOCOL_HYPERLANE", 3):
+            allowed.add(mods.get("warpModuleAddress", ""))
+        allowed.add("swap-pool-account-01".encode().hex())
+        for (a, d), v in delta.items():
+            if a not in allowed:
+                out.append((s.i, "bystander: account %s changed by %d %s" % (a, v, d)))
+        # (vi) the outgoing amount is strictly positive: what left towards fees is strictly less than A
+        gained = sum(v for (a, d), v in delta.items() if d == dn and v > 0 and a not in (DUSTHEX,))
+        burned = -sup.get(dn, 0)
+        if gained + burned != A:
+            out.append((s.i, "split: fee credits + outgoing = %d, delivered %d" % (gained + burned, A)))
+    return out
+
+
+@prop
+class C02(Base):
+    id = "C02"
+    assumptions = C01.assumptions + ["the Hyperlane mailbox uses a no-op post-dispatch hook (a charging hook is reported under C11)"]
+
+    def streams(self, tier, seed):
+        f = {"recv": ["ack", "bal", "sup"], "recvh": ["ack", "bal", "sup"]}
+        return history_stream("S3-ledger", 2, tier, seed, 200, 700, f, c02_oracle, p_admin=6, p_deposit=10, p_query=0, p_reimport=0)
+
+
+# ----------------------------------------------------------------------------------------------- C03
+
+FAULT_SITES = ["bank.SendCoinsFromModuleToModule", "app.OnRecvPacket", "bank.SendCoins", "event.Emit", "cctp.DepositForBurn", "cctp.DepositForBurnWithCaller",
+               "warp.Token", "warp.RemoteTransfer", "bank.Send"]
+
+
+def c03_fault_lines(r, toks, pairs=False):
+    lines, _ = scen.base_setup()
+    tok = toks[0][0]
+    shapes = []
+    for fwd in [cctp_fwd(domain=0), cctp_fwd(domain=1, caller=b"\x05" * 32), int_fwd(U[1]), hyp_fwd(tok, domain=1)]:
+        for nfee in (0, 1, 3):
+            acts = None if nfee == 0 else [fee_action([(U[2 + i], "b", 100 + i) for i in range(nfee)])]
+            shapes.append((fwd, acts))
+    for fwd, acts in shapes:
+        for site in FAULT_SITES:
+            for k in (1, 2, 3, 4):
+                if site not in ("bank.SendCoins", "event.Emit") and k > 1:
+                    continue
+                # a pre-existing balance so that the sweep is a real call
+                lines.append("deposit %s %s 5" % (hx(ORB_BYTES), hx("uusdc")))
+                lines.append("fault %s %d" % (site, k))
+                lines.append(orb_pkt("recvh", 10 ** 6, fwd, acts))
+        if pairs:
+            for a in FAULT_SITES[:4]:
+                for b in FAULT_SITES[2:]:
+                    lines.append("deposit %s %s 5" % (hx(ORB_BYTES), hx("uusdc")))
+                    lines.append("fault %s 1" % a)
+                    lines.append("fault %s 2" % b)
+                    lines.append(orb_pkt("recvh", 10 ** 6, fwd, acts))
+        # unfaulted control
+        lines.append(orb_pkt("recvh", 10 ** 6, fwd, acts))
+    return lines
+
+
+def c03_natural_lines(r, toks):
+    lines, _ = scen.base_setup()
+    tok = toks[0][0]
+    ok_fee = [fee_action([(U[2], "b", 100)])]
+    lines += [
+        orb_pkt("recv", 10 ** 6, int_fwd(b32(DUST_BYTES)), ok_fee),                  # blocked internal recipient
+        orb_pkt("recv", 10 ** 6, int_fwd(U[1]), [fee_action([(b32(DUST_BYTES), "b", 100)])]),  # fee to a blocked account is a plain SendCoins
+        "env ftfpause 1", orb_pkt("recv", 10 ** 6, cctp_fwd(domain=0), ok_fee), "env ftfpause 0",
+        "env cctppause burn 1", orb_pkt("recv", 10 ** 6, cctp_fwd(domain=0), ok_fee), "env cctppause burn 0",
+        "env cctppause send 1", orb_pkt("recv", 10 ** 6, cctp_fwd(domain=0), ok_fee), "env cctppause send 0",
+        "env burnlimit 999", orb_pkt("recv", 10 ** 6, cctp_fwd(domain=0), ok_fee), orb_pkt("recv", 999 + 10, cctp_fwd(domain=0), [fee_action([(U[2], "a", 10)])]),
+        "env burnlimit 1000000000000000000000000",
+        orb_pkt("recv", 10 ** 6, cctp_fwd(domain=9), ok_fee),                        # no token messenger
+        orb_pkt("recv", 10 ** 6, cctp_fwd(domain=0, mint=b"\x00" * 32), ok_fee),       # zero mint recipient
+        orb_pkt("recv", 10 ** 6, cctp_fwd(domain=0, mint=b"\x01" * 20), ok_fee),       # short mint recipient (fails after the burn)
+        orb_pkt("recv", 10 ** 6, cctp_fwd(domain=0, caller=b"\x01" * 20), ok_fee),
+        orb_pkt("recv", 10 ** 6, hyp_fwd(tok, domain=77), ok_fee),                   # unenrolled router
+        orb_pkt("recv", 10 ** 6, hyp_fwd(tok, domain=1), ok_fee, denom="uother"),    # token of another denom
+        "env blacklist %s 1" % hx(USERS[2]), orb_pkt("recv", 10 ** 6, cctp_fwd(domain=0), ok_fee), "env blacklist %s 0" % hx(USERS[2]),
+        "env recvenabled 0", orb_pkt("recv", 10 ** 6, int_fwd(U[1]), ok_fee), "env recvenabled 1",
+        orb_pkt("recv", 2 * 10 ** 30 + 1, int_fwd(U[1]), ok_fee),                    # more than the escrow holds
+        orb_pkt("recv", 10 ** 6, int_fwd(U[1]), ok_fee),                             # control
+    ]
+    return lines
+
+
+def c03_oracle(steps):
+    out = rollback_oracle(steps)
+    pending = []
+    for s in steps:
+        if s.op == "fault" and s.impl_raw == "ok":
+            f = s.line.split(" ")
+            if f[1] != "clear":
+                pending.append((f[1], int(f[2])))
+        elif s.op == "recvh":
+            calls = [] if s.impl.get("calls") in (None, "-") else s.impl["calls"].split(",")
+            fired = [(site, k) for site, k in pending if calls.count(site) >= k]
+            if fired and s.impl.get("ack") == "ok":
+                out.append((s.i, "swallowed: call %s #%d failed but the acknowledgement is a success" % fired[0]))
+            pending = []
+    return out
+
+
+@prop
+class C03(Base):
+    id = "C03"
+    assumptions = C01.assumptions + ["fault injection is at the external boundaries of the harness-wired stack (same code, decorators at bank / ICS-20 / CCTP / warp / event service)"]
+
+    def streams(self, tier, seed):
+        r = Rng(seed * 1000 + 3)
+        _, toks = scen.base_setup()
+        f = {"recvh": ["ack", "bal", "sup", "st", "calls"], "recv": ["ack", "bal", "sup", "st"]}
+        return [Stream("S2-fault-enumeration", c03_fault_lines(r, toks, pairs=(tier == "thorough")), fields=f, oracle=c03_oracle),
+                Stream("S3-natural-failures", c03_natural_lines(r, toks), fields=f, oracle=c03_oracle)]
+
+
+# ----------------------------------------------------------------------------------------------- C05
+
+def expected_hreq(p):
+    """the request the bridge must receive, recomputed from the payload and the coin left after the fees"""
+    fw = p["payload"]["forwarding"]
+    a = fw["attributes"]
+    import base64
+    orb_h = hx(ORB)
+
+    def bz(x):
+        return base64.b64decode(x) if x else b""
+    if a["@type"] == scen.CCTP_URL:
+        mint, caller = bz(a.get("mint_recipient")), bz(a.get("destination_caller"))
+        base = "from=%s:amount={amt}:domain=%d:mint=%s:burn={dn}" % (orb_h, a.get("destination_domain", 0), hx(mint))
+        if caller:
+            return "cctp.DepositForBurnWithCaller:" + base + ":caller=" + hx(caller)
+        return "cctp.DepositForBurn:" + base
+    if a["@type"] == scen.INT_URL:
+        return "bank.Send:from=%s:to=%s:coins={dn}={amt}" % (orb_h, hx(a.get("recipient", "")))
+    if a["@type"] == scen.HYP_URL:
+        hook = bz(a.get("custom_hook_id"))
+        fee = a.get("max_fee") or {}
+        return "warp.RemoteTransfer:sender=%s:token=%s:domain=%d:recipient=%s:amount={amt}:hook=%s:gas=%s:feedenom=%s:feeamt=%s:meta=%s" % (
+            orb_h, bz(a.get("token_id")).hex(), a.get("destination_domain", 0), bz(a.get("recipient")).hex(), hook.hex() if hook else "nil",
+            parse_go_int(a.get("gas_limit", "0")), hx(fee.get("denom", "")), parse_go_int(fee.get("amount", "0")), hx(a.get("custom_hook_metadata", "")))
+    return None
+
+
+KIND_OF_PROTO = {"PROTOCOL_CCTP": scen.CCTP_URL, "PROTOCOL_HYPERLANE": scen.HYP_URL, "PROTOCOL_INTERNAL": scen.INT_URL, 2: scen.CCTP_URL, 3: scen.HYP_URL, 4: scen.INT_URL}
+
+
+def c05_oracle(steps):
+    out = []
+    for s in steps:
+        if s.op == "msgh" and " ReplaceDepositForBurn " in s.line:
+            f = s.line.split(" ")
+            signer = unhx(f[2]).decode("utf-8", "replace")
+            if signer == AUTHORITY:
+                exp = "cctp.ReplaceDepositForBurn:from=%s:msg=%s:att=%s:caller=%s:mint=%s" % (hx(ORB), f[3], f[4], f[5], f[6])
+                if s.impl.get("hreq") != exp:
+                    out.append((s.i, "replace-request: CCTP received %s, expected %s" % (s.impl.get("hreq", "")[:200], exp[:200])))
+            elif s.impl.get("hreq") != "-":
+                out.append((s.i, "replace-request: a non-authority signer reached CCTP"))
+            continue
+        if s.op != "recvh" or s.impl.get("ack") != "ok":
+            continue
+        p = packet_of(s.line)
+        if not receiver_is_orbiter(p) or not p["payload"] or not isinstance(p["payload"].get("forwarding"), dict):
+            continue
+        fw = p["payload"]["forwarding"]
+        attrs = fw.get("attributes") or {}
+        pid = fw.get("protocol_id")
+        if KIND_OF_PROTO.get(pid) != attrs.get("@type"):
+            out.append((s.i, "mismatch-accepted: protocol %s executed with attributes %s" % (pid, attrs.get("@type"))))
+            continue
+        reqs = [x for x in (s.impl.get("hreq") or "-").split(";") if not x.startswith("swap:")]
+        if len(reqs) != 1:
+            out.append((s.i, "route: %d bridge requests for one transfer: %s" % (len(reqs), s.impl.get("hreq", "")[:200])))
+            continue
+        exp = expected_hreq(p)
+        if exp is None:
+            continue
+        # the coin left after the actions: from the request itself the amount is whatever it says; check it against
+        # the ledger: delivered minus fee credits
+        delta = parse_delta(s.impl.get("bal"))
+        A = parse_go_int(p["ftpd"]["amount"])
+        dn = p["ftpd"]["denom"][len(p["src_port"] + "/" + p["src_chan"] + "/"):]
+        fee_rcpts = set()
+        for act in p["payload"].get("pre_actions") or []:
+            for fi in (act.get("attributes") or {}).get("fees_info") or []:
+                a = decode_addr(fi.get("recipient", ""))
+                if a:
+                    fee_rcpts.add(a.hex())
+        route_acct = None
+        if attrs.get("@type") == scen.INT_URL:
+            ra = decode_addr(attrs.get("recipient", ""))
+            route_acct = ra.hex() if ra else None
+        fees_paid = 0
+        for (a, d), v in delta.items():
+            if d == dn and v > 0 and a in fee_rcpts and a != route_acct:
+                fees_paid += v
+        if route_acct in fee_rcpts:
+            # the recipient is also a fee recipient: its gain is fee + forwarded; use the request's own amount
+            fees_paid = None
+        got = reqs[0]
+        if fees_paid is not None:
+            want = exp.format(amt=A - fees_paid, dn=hx(dn))
+            if got != want:
+                out.append((s.i, "request: bridge received %s, payload says %s" % (got[:300], want[:300])))
+    return out
+
+
+def c05_lines(r, toks, n):
+    lines, _ = scen.base_setup()
+    tok, tdenom = toks[0]
+    # every field varied independently, pairwise distinct values
+    for i in range(n):
+        k = r.below(3)
+        amount = r.choice([10 ** 6, 12345, 999983, 10 ** 12])
+        acts = [fee_action([(U[2], "b", r.choice([100, 250])), (U[3], "a", r.choice([7, 11]))])] if r.chance(1, 2) else None
+        if k == 0:
+            fwd = cctp_fwd(domain=r.choice(CCTP_DOMAINS), mint=r.bytes(32), caller=r.choice([None, r.bytes(32)]), passthrough=None)
+            lines.append(orb_pkt("recvh", amount, fwd, acts))
+        elif k == 1:
+            fwd = int_fwd(r.choice(U[:6]))
+            lines.append(orb_pkt("recvh", amount, fwd, acts, denom=r.choice(DENOMS)))
+        else:
+            fwd = hyp_fwd(tok, domain=r.choice([1, 2]), recipient=r.bytes(32), hook=None, meta=r.choice([None, "0x" + r.bytes(3).hex()]),
+                          gas=r.choice([None, 0, 77, 50001]), fee=r.choice([None, ("uusdc", 0), ("uusdc", 13), ("stake", 5)]))
+            lines.append(orb_pkt("recvh", amount, fwd, acts, denom=tdenom))
+    # every (protocol id, attribute type) combination, symbolic and numeric ids, out of range numbers
+    attr_sets = [cctp_fwd(domain=0)["attributes"], int_fwd(U[1])["attributes"], hyp_fwd(tok, domain=1)["attributes"]]
+    for pid in PROTO_NAMES + ["PROTOCOL_UNSUPPORTED", -1, 0, 1, 2, 3, 4, 5, 6, 7, 2 ** 31 - 1]:
+        for a in attr_sets:
+            lines.append(orb_pkt("recvh", 10 ** 6, {"protocol_id": pid, "attributes": a}))
+    for aid in ACTION_NAMES + ["ACTION_UNSUPPORTED", -1, 0, 1, 2, 3, 4, 99]:
+        act = fee_action([(U[2], "b", 100)])
+        act["id"] = aid
+        lines.append(orb_pkt("recv", 10 ** 6, int_fwd(U[1]), [act]))
+    # ReplaceDepositForBurn through the recording message server
+    for signer in (AUTHORITY, U[0], ORB, ""):
+        for _ in range(3):
+            lines.append("msgh ReplaceDepositForBurn %s %s %s %s %s" % (hx(signer), hx(r.bytes(r.range(1, 40))), hx(r.bytes(r.range(1, 70))), hx(r.bytes(32)), hx(r.bytes(32))))
+    return lines
+
+
+def c05_unrouted_oracle(steps):
+    out = c05_oracle(steps)
+    for s in steps:
+        if s.op in RECV_OPS and s.impl.get("ack") == "ok":
+            p = packet_of(s.line)
+            if not p["payload"]:
+                continue
+            for act in p["payload"].get("pre_actions") or []:
+                if isinstance(act, dict) and act.get("id") not in ("ACTION_FEE", 1) and s.op == "recv":
+                    out.append((s.i, "unrouted-action: action %r executed though the chain wires only the fee controller" % (act.get("id"),)))
+            pid = (p["payload"].get("forwarding") or {}).get("protocol_id")
+            if pid not in ("PROTOCOL_CCTP", "PROTOCOL_HYPERLANE", "PROTOCOL_INTERNAL", 2, 3, 4):
+                out.append((s.i, "unrouted-protocol: protocol %r used as outgoing route" % (pid,)))
+    return out
+
+
+@prop
+class C05(Base):
+    id = "C05"
+    assumptions = C03.assumptions
+
+    def streams(self, tier, seed):
+        r = Rng(seed * 1000 + 5)
+        _, toks = scen.base_setup()
+        f = {"recvh": ["ack", "hreq"], "recv": ["ack", "req"], "msgh": ["res", "hreq"]}
+        return [Stream("S2-recorded-requests", c05_lines(r, toks, self.n(tier, 150, 1500)), fields=f, oracle=c05_unrouted_oracle)] + \
+            history_stream("S3-typed-events", 5, tier, seed, 120, 500, {"recv": ["ack", "req"]}, None, n_hist_quick=1, n_hist_thorough=4, p_admin=5, p_deposit=3, p_query=0, p_reimport=0)
